@@ -171,6 +171,9 @@ class Harness:
         self.on_raise = [Clause("ensures_on_raise." + n, t) for n, t in getattr(c, "ensures_on_raise", {}).items()]
         self.opaque = getattr(c, "native_opaque", {})
         self.setup = getattr(c, "native_setup", None)
+        # known-finding input regimes: (clause suffixes or None, predicate clause)
+        self.regimes = [(rg.get("obligations"), Clause("regime." + rg.get("id", "?"), rg["predicate"]))
+                        for rg in req.get("regimes", []) if rg.get("kind") == "input"]
         self.params = list(inspect.signature(self.fn).parameters)
 
     def build(self, inputs, ghost):
@@ -231,6 +234,16 @@ class Harness:
                     return {"status": "precondition", "clause": cl.name}
         except Exception as e:  # pylint: disable=broad-except
             return {"status": "precondition", "detail": f"{type(e).__name__}: {e}"}
+        skip_clauses = set()
+        for suffixes, rcl in getattr(self, "regimes", []):
+            try:
+                inside = bool(rcl.post(ns, rcl.pre(ns)))
+            except Exception:  # pylint: disable=broad-except
+                inside = False
+            if inside:
+                if not suffixes:
+                    return {"status": "precondition", "clause": rcl.name}      # the whole call lies in a listed regime
+                skip_clauses.update(suffixes)
         pres = {}
         try:
             for cl in self.ensures:
@@ -270,8 +283,15 @@ class Harness:
                 names = {n.id for n in ast.walk(ast.parse(cl.text.strip(), mode="eval")) if isinstance(n, ast.Name)}
                 if names & set(missing_ghost):
                     continue
+                if any(cl.name.endswith(sfx) for sfx in skip_clauses):
+                    continue            # this input lies in a listed known finding's regime for this clause
                 try:
                     ok = cl.post(ns, pres[cl.name])
+                except (TypeError, AttributeError, NameError, KeyError, IndexError) as e:
+                    # the clause no longer fits the shape of what the function returns / keeps (a changed private
+                    # signature, a renamed field): the contract is out of date for this code - not a violation
+                    return {"status": "spec_error", "clause": cl.name, "detail": f"clause raised {type(e).__name__}: {e}",
+                            "result": repr(result)[:400]}
                 except Exception as e:  # pylint: disable=broad-except
                     return {"status": "failed", "clause": cl.name, "detail": f"clause raised {type(e).__name__}: {e}",
                             "result": repr(result)[:400]}
@@ -316,6 +336,11 @@ class Harness:
                         return {"status": "ok", "outcome": f"raised {cname} (allowed)"}
                     return {"status": "failed", "clause": f"raises.{cname}",
                             "detail": f"raised {type(exc).__name__} outside its allowed condition"}
+            tb = traceback.extract_tb(exc.__traceback__)
+            if isinstance(exc, (TypeError, AttributeError)) and ("Recorder" in str(exc) or "FakeTask" in str(exc) or (
+                    tb and "native/bindings.py" in tb[-1].filename)):
+                # the stand-in object lacks something the code now uses: a limit of this harness, not of the code
+                return {"status": "spec_error", "clause": "harness", "detail": f"{type(exc).__name__}: {exc}"}
             return {"status": "failed", "clause": "no_unexpected_exception",
                     "detail": f"{type(exc).__name__}: {exc}"}
         return verdict["v"]
